@@ -86,7 +86,9 @@ template <typename F> static F gen(pplv::Rng& rng) {
     if (w == 1) v = nextafter(v, L::infinity()); else if (w == 2) v = nextafter(v, (F) 0);
     break; }
   case 11: {             // integers with exactly p, p-1, p+1 .. significant bits (rounded into F if needed)
-    int b = p - 2 + (int) rng.below(5);
+    static const int PS[] = { 24, 53, 64 };
+    int q = rng.chance(1, 2) ? p : PS[rng.below(3)];          // also the significand sizes of the other formats
+    int b = q - 2 + (int) rng.below(5);
     if (b > 64) b = 64;
     unsigned long long u = (1ull << (b - 1)) | 1ull | (rng.next() & ((1ull << (b - 1)) - 1));
     v = (F) (long double) u;
@@ -272,7 +274,9 @@ static void one_case(const char* pn, pplv::Rng& rng) {
     mpz_class n = gen_mpz(rng, L::digits, B::EXPONENT_MAX), dd;
     switch (rng.below(6)) {
     case 0: dd = 1; dd <<= rng.below(L::digits + 80); break;                              // dyadic
-    case 1: dd = 1; dd <<= (unsigned) (-B::EXPONENT_MIN + (int) rng.below(80)); break;     // towards denormals / zero
+    case 1: {   // towards denormals / zero, with a denominator that is not a power of two half of the time
+      dd = rng.chance(1, 2) ? mpz_class(1) : mpz_class(abs(gen_mpz(rng, L::digits, 0)) + 1);
+      dd <<= (unsigned) (-B::EXPONENT_MIN - (int) rng.below(12) + (int) rng.below(L::digits + 30)); break; }
     case 2: dd = gen_mpz(rng, L::digits, 200); break;
     case 3: dd = 3; break;
     case 4: { dd = gen_mpz(rng, L::digits, B::EXPONENT_MAX); break; }
